@@ -59,7 +59,7 @@ void report_race(const Acc &old, int tid, bool is_write, uintptr_t addr, uintptr
 }
 
 // ---------------- scheduler ----------------
-static int choose(int me, YieldKind k) {
+static int choose_by_strategy(int me, YieldKind k) {
     int runnable[MAXT], n = 0;
     for (int i = 0; i < RT.nthreads; i++) if (RT.T[i].state == T_RUNNABLE) runnable[n++] = i;
     if (n == 0) return -1;
@@ -88,6 +88,33 @@ static int choose(int me, YieldKind k) {
     }
     }
     return runnable[0];
+}
+
+// default policy: keep running the current thread; when it cannot run, the first runnable thread in seq_order,
+// then the lowest id.  A schedule is recorded (and replayed) as the list of DEVIATIONS from this policy:
+// (decision index, chosen thread).  An empty list is the sequential schedule.
+static int default_choice(int me) {
+    if (me >= 0 && RT.T[me].state == T_RUNNABLE) return me;
+    for (int id : RT.seq_order) if (id >= 0 && id < RT.nthreads && RT.T[id].state == T_RUNNABLE) return id;
+    for (int i = 0; i < RT.nthreads; i++) if (RT.T[i].state == T_RUNNABLE) return i;
+    return -1;
+}
+static int choose(int me, YieldKind k) {
+    int dflt = default_choice(me);
+    if (dflt < 0) return -1;
+    int pick;
+    if (RT.strategy == S_TRACE) {
+        pick = dflt;
+        while (RT.trace_pos < RT.trace_in.size() && RT.trace_in[RT.trace_pos].first < RT.decisions) RT.trace_pos++;
+        if (RT.trace_pos < RT.trace_in.size() && RT.trace_in[RT.trace_pos].first == RT.decisions) {
+            int want = RT.trace_in[RT.trace_pos].second;
+            RT.trace_pos++;
+            if (want >= 0 && want < RT.nthreads && RT.T[want].state == T_RUNNABLE) pick = want;
+        }
+    } else pick = choose_by_strategy(me, k);
+    if (pick != dflt && RT.recorded.size() < 200000) RT.recorded.push_back({RT.decisions, pick});
+    RT.decisions++;
+    return pick;
 }
 
 static void switch_to(int me, int next, bool wait_after) {
